@@ -203,8 +203,11 @@ def _gen_skeletons(ops):
     return res
 
 
-GEN_QUICK = _gen_skeletons(['==', '&&'])
-GEN_ALL = GEN_QUICK + [x for x in _gen_skeletons(['==', '<', '!=', '&&', '||']) if x not in GEN_QUICK]
+GEN_QUICK = _gen_skeletons(['=='])[:10] + ["('S0' && 'S1') == 'S0'", "'S0' && ('S0' == 'S1')", "(!'S0') && ('S0' == 'S1')", "'S0' == 'S1' == 'S0'"]
+GEN_ALL = list(GEN_QUICK)
+for _x in _gen_skeletons(['==', '&&']) + _gen_skeletons(['==', '<', '!=', '&&', '||']):
+    if _x not in GEN_ALL:
+        GEN_ALL.append(_x)
 SKELETONS = SKELETONS + GEN_ALL
 # only the skeleton of this condition is parsed (at import time, outside the tracer): pyparsing's infix_notation
 # takes ~50 ms per expression
